@@ -11,11 +11,15 @@ package main
 import (
 	"context"
 	"fmt"
+	"io"
 	"sort"
 	"strings"
 
 	"storj.io/drpc"
+	"storj.io/drpc/drpcconn"
 	"storj.io/drpc/drpcmanager"
+	"storj.io/drpc/drpcmigrate"
+	"storj.io/drpc/drpcserver"
 	"storj.io/drpc/drpcstream"
 
 	"verifharness/census"
@@ -737,6 +741,82 @@ func localCloseSeenByWrite(id string, seed uint64) runner.Result {
 	return res
 }
 
+// headerConnFault: the client's connection runs over a drpcmigrate.HeaderConn (what DialWithHeader
+// returns), and a write of the transport underneath fails: the first one, which carries the header, or
+// a later one; fail-stop or only that one write. The wrapper must not hide the failure: the pending
+// call returns an error, the connection reports closed, later calls fail.
+func headerConnFault(id string, seed uint64) runner.Result {
+	base := census.IDs(census.Snapshot())
+	r := &payload.SplitMix{S: seed}
+	pair := simnet.New(simnet.Opts{Cap: payload.Pick(r, []int{-1, 0, 4096})})
+	kind := payload.Pick(r, []simnet.FaultKind{simnet.FaultWriteErr, simnet.FaultWritePartial, simnet.FaultWriteErrOnly, simnet.FaultWritePartialOnly})
+	off := payload.Pick(r, []int64{0, 1, 7, 8, 9, 20, 40})
+	pair.A.SetFault(simnet.Fault{Kind: kind, Offset: off, Temporary: r.Intn(2) == 0})
+	header := drpcmigrate.DRPCHeader
+	conn := drpcconn.New(drpcmigrate.NewHeaderConn(pair.A, header))
+	ctx, cancel := context.WithCancel(context.Background())
+	defer cancel()
+	srv := drpcserver.New(rig.HandlerFunc(func(stream drpc.Stream, rpc string) error {
+		var m []byte
+		if err := stream.MsgRecv(&m, payload.Enc{}); err != nil {
+			return err
+		}
+		return stream.MsgSend(&m, payload.Enc{})
+	}))
+	serve := rig.Go("serve", func() (interface{}, error) {
+		hdr := make([]byte, len(header))
+		if _, err := io.ReadFull(pair.B, hdr); err != nil {
+			return nil, err
+		}
+		return nil, srv.ServeOne(ctx, pair.B)
+	})
+	in := payload.Make(1, 0, 0, 0, 30)
+	var out []byte
+	call := rig.Go("invoke", func() (interface{}, error) {
+		return nil, conn.Invoke(context.Background(), "/x", payload.Enc{}, &in, &out)
+	})
+	_, snap := census.Quiesce(rig.Watchdog)
+	desc := fmt.Sprintf("client over a HeaderConn, the transport underneath fails with %s at byte %d of what the client writes (the header is bytes 0-%d)", kind, off, len(header)-1)
+	var fails []string
+	fired := pair.A.FaultFired()
+	if !call.Returned() {
+		fails = append(fails, "the Invoke is still pending at quiescence although a write of its transport failed\n"+census.Dump(census.InDRPC(snap)))
+	} else if fired && call.Err == nil {
+		fails = append(fails, "the Invoke returned nil although a write of its transport failed")
+	}
+	if fired && len(fails) == 0 {
+		if !rig.IsClosed(conn.Closed()) {
+			fails = append(fails, "after the failed write the connection does not report closed")
+		}
+		later := rig.Go("later", func() (interface{}, error) {
+			return nil, conn.Invoke(context.Background(), "/x", payload.Enc{}, &in, &out)
+		})
+		if !later.Wait() {
+			fails = append(fails, "an Invoke after the fault blocks")
+		} else if later.Err == nil {
+			fails = append(fails, "an Invoke after the fault succeeded")
+		}
+	}
+	cl := rig.Go("close", func() (interface{}, error) { return nil, conn.Close() })
+	cancel()
+	if !cl.Wait() && len(fails) == 0 {
+		fails = append(fails, "Conn.Close does not return")
+	}
+	pair.A.Close()
+	pair.B.Close()
+	_, snap = census.Quiesce(rig.Watchdog)
+	_ = serve
+	if left := census.NewSince(census.InDRPC(snap), base); len(left) > 0 && len(fails) == 0 {
+		fails = append(fails, "library goroutines left behind:\n"+census.Dump(left))
+	}
+	if len(fails) > 0 {
+		return runner.Violation(id, "fault:header-conn:"+keyOf(fails[0]), desc+"\n"+strings.Join(fails, "\n"))
+	}
+	res := runner.Hold(id, desc, fired)
+	res.Events = 2
+	return res
+}
+
 func gen(tier string, seed uint64) []runner.Scenario {
 	var out []runner.Scenario
 	nraw := 300
@@ -749,6 +829,8 @@ func gen(tier string, seed uint64) []runner.Scenario {
 		out = append(out, runner.Scenario{ID: idl, Run: func() runner.Result { return localCloseSeenByWrite(idl, payload.Hash(seed, 0xC05E, uint64(i))) }})
 		id := fmt.Sprintf("close-during-decode/%d", i)
 		out = append(out, runner.Scenario{ID: id, Run: func() runner.Result { return closeDuringDecode(id, payload.Hash(seed, 0xC05C, uint64(i))) }})
+		idh := fmt.Sprintf("header-conn-fault/%d", i)
+		out = append(out, runner.Scenario{ID: idh, Run: func() runner.Result { return headerConnFault(idh, payload.Hash(seed, 0xC05F, uint64(i))) }})
 	}
 	if tier == "thorough" {
 		nrace = 3000
@@ -829,7 +911,7 @@ func main() {
 	runner.Main(runner.Check{
 		Property: "C05",
 		Level:    "fault_enumeration",
-		Rule:     "fault points: for each of 16 deterministic workloads (unary small / multi-frame / with metadata / failing handler, client-, server-, bidirectional streams, failing bidi, two RPCs on one connection, early client close, flush-per-frame and 6 KB unary over a rendezvous transport) a fault-free run yields the byte streams and frame edges; one case = (workload, faulted endpoint, fault kind in {write error, partial write, read error, data+error, peer EOF, peer reset, local close (all fail-stop), write error only, partial write only (that one write fails, the transport stays usable), data+error only (that one read returns its bytes together with an error, later reads would deliver the rest)}; in every third case the client transport's Close is slow (torn down, returns late) and the connection must report closed while it is in progress, byte offset, read chunking). quick: every frame edge, edge-1, edge+1, offset 0 and 8 seeded interior offsets per direction with one seeded chunking; thorough: every byte offset x all three chunkings. Plus raw-server cases: a raw peer writes a seeded prefix (whole, frame edge, any byte) of a valid client session that may contain RPCs abandoned before their invoke (metadata and/or cancel only), then the transport ends (read error, EOF, reset, peer close); ServeOne must return without anybody telling it. Plus finish-race cases: the contexts of the first RPCs are cancelled exactly while their streams are being marked finished (parked at the hook), then a last RPC has receives pending on both sides when the transport is reset or closed. Plus fault-with-blocked-ops cases (a send stuck in the transport, Close/CloseSend of another goroutine queued behind it, then peer reset / peer close / Conn.Close). Plus close-during-decode cases: the connection is closed locally while a receiver is inside the decode of a message and the next message waits behind it. Non-trivial: the fault actually fired. Distinct: by case tuple.",
+		Rule:     "fault points: for each of 16 deterministic workloads (unary small / multi-frame / with metadata / failing handler, client-, server-, bidirectional streams, failing bidi, two RPCs on one connection, early client close, flush-per-frame and 6 KB unary over a rendezvous transport) a fault-free run yields the byte streams and frame edges; one case = (workload, faulted endpoint, fault kind in {write error, partial write, read error, data+error, peer EOF, peer reset, local close (all fail-stop), write error only, partial write only (that one write fails, the transport stays usable), data+error only (that one read returns its bytes together with an error, later reads would deliver the rest)}; in every third case the client transport's Close is slow (torn down, returns late) and the connection must report closed while it is in progress, byte offset, read chunking). quick: every frame edge, edge-1, edge+1, offset 0 and 8 seeded interior offsets per direction with one seeded chunking; thorough: every byte offset x all three chunkings. Plus raw-server cases: a raw peer writes a seeded prefix (whole, frame edge, any byte) of a valid client session that may contain RPCs abandoned before their invoke (metadata and/or cancel only), then the transport ends (read error, EOF, reset, peer close); ServeOne must return without anybody telling it. Plus finish-race cases: the contexts of the first RPCs are cancelled exactly while their streams are being marked finished (parked at the hook), then a last RPC has receives pending on both sides when the transport is reset or closed. Plus fault-with-blocked-ops cases (a send stuck in the transport, Close/CloseSend of another goroutine queued behind it, then peer reset / peer close / Conn.Close). Plus header-conn-fault cases (the client connection over a drpcmigrate.HeaderConn whose underlying transport fails a write inside or after the header, fail-stop or only that write). Plus close-during-decode cases: the connection is closed locally while a receiver is inside the decode of a message and the next message waits behind it. Non-trivial: the fault actually fired. Distinct: by case tuple.",
 		Assumptions: []string{
 			"fault model is fail-stop: after the fault the endpoint's reads and writes both fail and the peer sees EOF or a reset after the surviving bytes; a transport whose writes fail while its reads stay healthy forever is not modelled (by design write errors are returned to the caller and the read error terminates the manager)",
 			"'every later call fails' is checked by issuing a send and a receive on each old stream, an Invoke and a NewStream after the process came to rest",
